@@ -285,7 +285,7 @@ class _LocalDateTimePatternParser(_IPatternParser[LocalDateTime]):
         "T": handle_uppercase_t,
         "y": _DatePatternHelper._create_year_of_era_handler(get_year_of_era, set_year_of_era, LocalDateTime),
         "u": _SteppedPatternBuilder._handle_padded_field(
-            4, _PatternFields.YEAR, -9999, 9999, get_year, set_year, LocalDateTime
+            4, _PatternFields.YEAR, -9998, 9999, get_year, set_year, LocalDateTime
         ),
         "M": _DatePatternHelper._create_month_of_year_handler(
             get_month,
